@@ -45,4 +45,15 @@ def jobs(tier):
         out.extend(tjobs(f"{H}:c06_mapfill", t, tier, functions=FUNCS, timeout=200,
                          note=f"{t}: fill_in_map after fill_in_let (and after expand_macros); oracle: meaning unchanged, no alias referenced any more, "
                               "get_used_qubit_indices == reference set"))
+    for t in (["t_alias_macro", "t_chain", "t_slice_let"] if q else WITH_MAPS):
+        for mask in (0, 1):
+            ep = [("o0", "int")] if mask else []
+            pre = ["0 <= o0 <= 2"] if mask else []
+            fx = {"mask": mask}
+            if not mask:
+                fx["o0"] = 0
+            out.extend(tjobs("vf.harness.walk:state_template", t, tier, fixed=fx, extra_params=ep, extra_pre=pre, timeout=600 if q else 2400,
+                             name=f"c06_emulator_{t}_m{mask}", base="state_template", functions=FUNCS + ["UnitarySerializedEmulator._make_subcircuit"],
+                             note=f"{t}: the emulator acts on the same physical qubit as the reference resolution of every alias reference (state comparison), and "
+                                  "get_used_qubit_indices of the circuit as written (macros unexpanded) equals the reference set"))
     return out
